@@ -166,3 +166,114 @@ func firstRich() int {
 	}
 	return -1
 }
+
+// Through the ENGINE: a game is played on an engine with a table (Hash 1 MB) by analysing to
+// depth d and playing the first move of the variation, for a few plies; a second engine without
+// a table is given the same moves. At every position the two must report the same score, and
+// the move played must be worth it.
+type c11engCase struct {
+	FEN   string
+	Depth int
+	Plies int
+}
+
+func init() {
+	Replayers["C11/engine"] = func(data json.RawMessage) (bool, string) {
+		var cs c11engCase
+		_ = json.Unmarshal(data, &cs)
+		vm := newValueMemo(0)
+		vm.impl = true
+		msg, _ := runC11Engine(context.Background(), cs, vm)
+		return msg != "", msg
+	}
+}
+
+func runC11Engine(ctx context.Context, cs c11engCase, vm *valueMemo) (msg string, checked int) {
+	defer func() {
+		if r := recover(); r != nil {
+			msg = fmt.Sprintf("panic: %v", r)
+		}
+	}()
+	mk := func(hash uint) *engineUnderTest {
+		e := newTableEngine(ctx, hash)
+		if err := e.Reset(ctx, cs.FEN); err != nil {
+			panic(err)
+		}
+		return &engineUnderTest{e}
+	}
+	with, without := mk(1), mk(0)
+	g, err := ref.GameFromFEN(cs.FEN)
+	if err != nil {
+		return "bad FEN", 0
+	}
+	for ply := 0; ply < cs.Plies; ply++ {
+		if len(g.Cur().Legal()) == 0 || g.DrawNow() {
+			break
+		}
+		a, err := with.analyse(ctx, cs.Depth)
+		if err != nil {
+			return fmt.Sprintf("ply %d: analysis with the table failed: %v", ply, err), checked
+		}
+		b, err := without.analyse(ctx, cs.Depth)
+		if err != nil {
+			return fmt.Sprintf("ply %d: analysis without a table failed: %v", ply, err), checked
+		}
+		checked++
+		if a.Score != b.Score || a.Depth != b.Depth {
+			return fmt.Sprintf("after %v: the engine with a table reports depth %d score %v, the engine without reports depth %d score %v", g.Moves, a.Depth, a.Score, b.Depth, b.Score), checked
+		}
+		if len(a.Moves) == 0 {
+			return fmt.Sprintf("after %v: no variation from the engine with a table", g.Moves), checked
+		}
+		rm, legal := g.Cur().FindMove(bridge.Text(a.Moves[0]))
+		if !legal {
+			return fmt.Sprintf("after %v: the engine with a table proposes the illegal move %s", g.Moves, bridge.Text(a.Moves[0])), checked
+		}
+		// history matters at the engine level (repetitions): value the move only where no draw can arise in the tree
+		if g.Len()+cs.Depth < 8 && g.CurClock()+cs.Depth < 100 {
+			child := g.Cur().Make(rm)
+			if !((rm.Kind == ref.Capture || rm.Kind == ref.CapturePromotion || rm.Kind == ref.Promotion) && ref.Insufficient(child)) {
+				if want, ok := bridge.RefScore(b.Score); ok {
+					if cv, ok := vm.value(ctx, "static", child.FEN(0, 1), a.Depth-1); ok {
+						if got := cv.Inc().Neg(); !got.Eq(want) {
+							return fmt.Sprintf("after %v: the engine with a table proposes %s, worth %v; the position is worth %v", g.Moves, rm, bridge.ImplScore(got), bridge.ImplScore(want)), checked
+						}
+					}
+				}
+			}
+		}
+		for _, e := range []*engineUnderTest{with, without} {
+			if err := e.e.Move(ctx, rm.String()); err != nil {
+				return "move rejected: " + err.Error(), checked
+			}
+		}
+		g.Push(rm)
+	}
+	return "", checked
+}
+
+func engineGames(c *harness.Check, vm *valueMemo) {
+	var cases []c11engCase
+	for _, r := range ttRoots {
+		if len(r.Moves) > 0 {
+			continue
+		}
+		d := c.Pick(3, 4)
+		if stringsContains(r.Tags, "rich") {
+			d = c.Pick(2, 3)
+		}
+		cases = append(cases, c11engCase{r.FEN, d, 4}, c11engCase{r.FEN, d - 1, 6})
+	}
+	var cc classCap
+	harness.Parallel(len(cases), func(i int) {
+		if c.Expired() {
+			return
+		}
+		msg, n := runC11Engine(context.Background(), cases[i], vm)
+		c.Evaluations.Add(int64(n))
+		c.AddExtra("engine_game_positions_checked", int64(n))
+		if msg != "" {
+			c.Violation(cc.sig("C11/engine", fmt.Sprintf("d=%d %s", cases[i].Depth, cases[i].FEN)), msg+fmt.Sprintf("\n    case: %+v", cases[i]), "C11/engine", cases[i])
+		}
+	})
+}
